@@ -1,9 +1,11 @@
 (* C11 correspondence: cases as printed by harness/c11. *)
-From Verif Require Export Lib.Base Model.C11_Registrations Model.C11_Delivery.
+From Verif Require Export Lib.Base Model.C11_Registrations Model.C11_Delivery Model.C11_Accounts.
 
 Record case := {
   c_id : N;
-  c_ops : list op;        (* the history; validators of a round in the order the implementation visited them *)
+  c_eops : list eop;      (* the history: for every registration round and every preparation the current epoch
+                             and the accounts provider's table (every account it knows -- first those the
+                             implementation visited, in that order -- with its activation / exit epochs) *)
   c_timing : list timing; (* how long each relay / beacon node takes in each operation (the mocks behave like real
                              clients: a request is abandoned when its context is cancelled first); the caller's
                              context lives ([t_ctx = None]) *)
@@ -39,7 +41,7 @@ Definition out_eqb (a b : out) : bool :=
   end.
 
 Definition agree (c : case) : bool :=
-  list_eqb out_eqb (snd (run_timed init (c_ops c) (c_timing c))) (c_outs c).
+  list_eqb out_eqb (snd (run_epochs init (c_eops c) (c_timing c))) (c_outs c).
 
 (* ------------------------------------------------------------------------------------------- *)
 (* P_b: the property on the OBSERVED outputs alone.  It does not look at the timing: the caller's
@@ -47,7 +49,25 @@ Definition agree (c : case) : bool :=
    (the mocks record a request only when it arrives).  The only things carried along the history
    are computed from the inputs and from the observed signing requests:
      [lastsig] : public key -> (content, stamp) of the last successful signing request seen;
-     [ctrl]    : the public keys of the last round that did its work. *)
+     [cmust] / [cmay] : the public keys of the last round that did its work.
+   WHICH validators a round is about is part of the property ("every validator that is about to be
+   active"): the accounts provider's table says from which epoch on each account validates and until
+   which one, and the round runs at a given epoch.  [must] = the accounts that are validating at the
+   NEXT epoch (active now and still then, or activating then): every one of them has to be served.
+   [may] = every account the provider knows: nothing may be signed or sent for anybody else, but a
+   tree that also serves, say, a validator on its last epoch does not break the property, so
+   soundness is judged against [may] and completeness against [must]. *)
+
+Definition about_to_be_active (epoch : N) (w : N * N) : bool :=
+  (fst w <=? epoch + 1) && ((snd w =? 0) || (epoch + 1 <? snd w)).
+
+Fixpoint spec_must (epoch : N) (vals : list validator) (wins : list (N * N)) : list validator :=
+  match vals with
+  | [] => []
+  | v :: vals' =>
+      if about_to_be_active epoch (hd (0, 0) wins) then v :: spec_must epoch vals' (tl wins)
+      else spec_must epoch vals' (tl wins)
+  end.
 
 Definition spec_content (v : validator) (rc : rcfg) : content :=
   {| ct_fee := rc_fee rc; ct_gas := rc_gas rc; ct_pub := v_pub v |}.
@@ -112,32 +132,34 @@ Fixpoint outcomes_ok (signs oks : list bool) : bool :=
   | o :: oks' => Bool.eqb o (hd true signs) && outcomes_ok (tl signs) oks'
   end.
 
-Definition round_active (r : round_in) : bool :=
+Definition active_with (r : round_in) (vals : list validator) : bool :=
   if r_api r then r_cfg r
-  else negb (r_acct_err r) && r_cfg r && match r_vals r with [] => false | _ => true end.
+  else negb (r_acct_err r) && r_cfg r && match vals with [] => false | _ => true end.
 
 Definition all_none {A} (l : list (option A)) : bool :=
   forallb (fun x => match x with None => true | Some _ => false end) l.
 
-Definition round_ok (lastsig : list (N * (content * N))) (r : round_in)
+(* a round that does not do its work: nothing may be signed or sent; the API call reports the
+   missing configuration *)
+Definition idle_ok (r : round_in)
            (err : bool) (reqs : list sigreq) (relays : relaymap) (nodes : list (option (list sreg))) : bool :=
-  let now := r_now r in
-  let vals := r_vals r in
-  if negb (round_active r) then
-    (* nothing may be signed or sent; the API call reports the missing configuration *)
     Bool.eqb err (r_api r && negb (r_cfg r))
     && match reqs with [] => true | _ => false end
     && match relays with [] => true | _ => false end
-    && all_none nodes && (length nodes =? length (r_nodes r))%nat
-  else
+    && all_none nodes && (length nodes =? length (r_nodes r))%nat.
+
+(* a round that does its work for the validators [must], and perhaps for more of [may] *)
+Definition work_ok (lastsig : list (N * (content * N))) (r : round_in) (must may : list validator)
+           (err : bool) (reqs : list sigreq) (relays : relaymap) (nodes : list (option (list sreg))) : bool :=
+  let now := r_now r in
     negb err
     (* P1: only what the settings say is ever signed, by that validator's account, at this time *)
     && forallb (fun q =>
          (q_stamp q =? now)
          && existsb (fun v => (q_acct q =? v_acct v)
-                              && existsb (fun rc => content_eqb (q_content q) (spec_content v rc)) (spec_relays v)) vals)
+                              && existsb (fun rc => content_eqb (q_content q) (spec_content v rc)) (spec_relays v)) may)
        reqs
-    && forallb (fun v => outcomes_ok (v_sign v) (map q_ok (filter (fun q => q_acct q =? v_acct v) reqs))) vals
+    && forallb (fun v => outcomes_ok (v_sign v) (map q_ok (filter (fun q => q_acct q =? v_acct v) reqs))) may
     (* P2: everything a relay is sent is a validator's registration for that relay, well signed,
        fresh or a legitimate reuse; no relay is sent more than its share; unreachable relays see nothing *)
     && forallb (fun e =>
@@ -149,7 +171,7 @@ Definition round_ok (lastsig : list (N * (content * N))) (r : round_in)
                 && provenance now reqs lastsig v sr
                 && (count (fun sr' => content_eqb (sr_content sr') (sr_content sr) && wf_for v sr') (snd e)
                     <=? positions_at v (sr_content sr) (fst e))%nat)
-              vals)
+              may)
             (snd e))
        relays
     (* P3: every validator's registration reaches every reachable relay of its settings, whatever
@@ -160,7 +182,7 @@ Definition round_ok (lastsig : list (N * (content * N))) (r : round_in)
            let c := spec_content v rc in
            (positions (r_relays r) v c <=? received_total relays v c + failed_reqs reqs v c)%nat)
            (spec_relays v))
-       vals
+       must
     (* P4: every secondary beacon node is called, all with the same list: the first relay's
        registration of each validator *)
     && (length nodes =? length (r_nodes r))%nat
@@ -176,7 +198,7 @@ Definition round_ok (lastsig : list (N * (content * N))) (r : round_in)
                      | rc :: _ => content_eqb (sr_content sr) (spec_content v rc)
                      | [] => false
                      end
-                  && provenance now reqs lastsig v sr) vals) l
+                  && provenance now reqs lastsig v sr) may) l
               && forallb (fun v =>
                    match spec_relays v with
                    | [] => true
@@ -184,9 +206,15 @@ Definition round_ok (lastsig : list (N * (content * N))) (r : round_in)
                        let c := spec_content v rc in
                        existsb (fun sr => content_eqb (sr_content sr) c && wf_for v sr) l
                        || (0 <? failed_reqs reqs v c)%nat
-                   end) vals
+                   end) must
               && match n0, l with Some _, [] => false | _, _ => true end
        end.
+
+Definition round_ok (lastsig : list (N * (content * N))) (r : round_in) (must may : list validator)
+           (err : bool) (reqs : list sigreq) (relays : relaymap) (nodes : list (option (list sreg))) : bool :=
+  if active_with r must then work_ok lastsig r must may err reqs relays nodes
+  else idle_ok r err reqs relays nodes
+       || (active_with r may && work_ok lastsig r [] may err reqs relays nodes).
 
 Fixpoint note_signings (lastsig : list (N * (content * N))) (reqs : list sigreq) : list (N * (content * N)) :=
   match reqs with
@@ -195,8 +223,10 @@ Fixpoint note_signings (lastsig : list (N * (content * N))) (reqs : list sigreq)
       note_signings (if q_ok q then (ct_pub (q_content q), (q_content q, q_stamp q)) :: lastsig else lastsig) reqs'
   end.
 
-Definition forward_ok (ctrl : list N) (f : forward_in) (relays : relaymap) : bool :=
-  let targets (sr : sreg) : list N :=
+(* [cmust]: the keys that certainly are controlled (registrations naming them are never forwarded);
+   [cmay]: the keys that may be (everybody else's registration has to be forwarded) *)
+Definition forward_ok (cmust cmay : list N) (f : forward_in) (relays : relaymap) : bool :=
+  let targets (ctrl : list N) (sr : sreg) : list N :=
     let pub := ct_pub (sr_content sr) in
     if memb N.eqb pub ctrl then []
     else if f_cfg f then match lookup_resolve (f_resolve f) pub with Some l => l | None => [] end
@@ -204,53 +234,69 @@ Definition forward_ok (ctrl : list N) (f : forward_in) (relays : relaymap) : boo
   (* only registrations of validators not controlled by Vouch, unchanged, to relays of their settings *)
   forallb (fun e =>
     spec_reached (f_relays f) (fst e)
-    && forallb (fun sr => existsb (fun sr' => sreg_eqb sr sr' && memb N.eqb (fst e) (targets sr')) (f_incoming f)) (snd e))
+    && forallb (fun sr => existsb (fun sr' => sreg_eqb sr sr' && memb N.eqb (fst e) (targets cmust sr')) (f_incoming f)) (snd e))
     relays
   (* and every one of them reaches every reachable relay of its settings *)
   && forallb (fun sr =>
-       forallb (fun a => negb (spec_reached (f_relays f) a) || existsb (sreg_eqb sr) (regs_at relays a)) (targets sr))
+       forallb (fun a => negb (spec_reached (f_relays f) a) || existsb (sreg_eqb sr) (regs_at relays a)) (targets cmay sr))
        (f_incoming f).
 
 Definition spec_fee (p : prepare_in) (v : validator) : option N :=
   if p_cfg p then match v_res v with Some res => Some (rs_fee res) | None => None end
   else Some (p_fallback p).
 
-Definition prepare_ok (p : prepare_in) (err : bool) (nodes : list (option (list (N * N)))) : bool :=
+Definition prepare_ok (p : prepare_in) (must may : list validator) (err : bool) (nodes : list (option (list (N * N)))) : bool :=
+  let work :=
+    negb err
+    && forallb (fun n =>
+         match n with
+         | None => false          (* every configured beacon node is called *)
+         | Some l =>
+             (* an entry for every validator that is about to be active, with its resolved fee recipient *)
+             forallb (fun v => match spec_fee p v with
+                               | Some fee => existsb (fun e => (fst e =? v_index v) && (snd e =? fee)) l
+                               | None => true
+                               end) must
+             (* and entries for validators of the provider only, with theirs *)
+             && forallb (fun e => existsb (fun v => (fst e =? v_index v)
+                                                    && option_eqb N.eqb (spec_fee p v) (Some (snd e))) may) l
+             && (length l <=? length may)%nat
+         end) nodes in
   (length nodes =? length (p_nodes p))%nat
   && if p_acct_err p then err && all_none nodes
-     else match p_vals p with
-          | [] => negb err && all_none nodes
-          | vals =>
-              negb err
-              && forallb (fun n =>
-                   match n with
-                   | None => false          (* every configured beacon node is called *)
-                   | Some l =>
-                       forallb (fun v => match spec_fee p v with
-                                         | Some fee => existsb (fun e => (fst e =? v_index v) && (snd e =? fee)) l
-                                         | None => true
-                                         end) vals
-                       && forallb (fun e => existsb (fun v => (fst e =? v_index v)
-                                                              && option_eqb N.eqb (spec_fee p v) (Some (snd e))) vals) l
-                       && (length l <=? length vals)%nat
-                   end) nodes
+     else match must with
+          | [] => (negb err && all_none nodes) || (match may with [] => false | _ => true end && work)
+          | _ => work
           end.
 
-Fixpoint spec_ok (lastsig : list (N * (content * N))) (ctrl : list N) (ops : list op) (outs : list out) : bool :=
-  match ops, outs with
+(* the controlled set after a round: the accounts of the round if it did its work *)
+Definition ctrl_must_after (r : round_in) (must may : list validator) (cmust : list N) : list N :=
+  if active_with r must then map v_pub must else if active_with r may then [] else cmust.
+Definition ctrl_may_after (r : round_in) (must may : list validator) (cmay : list N) : list N :=
+  if active_with r must then map v_pub may else if active_with r may then cmay ++ map v_pub may else cmay.
+
+Fixpoint spec_ok (lastsig : list (N * (content * N))) (cmust cmay : list N) (eops : list eop) (outs : list out) : bool :=
+  match eops, outs with
   | [], [] => true
-  | ORound r :: ops', OutRound err reqs relays nodes :: outs' =>
-      round_ok lastsig r err reqs relays nodes
-      && spec_ok (note_signings lastsig reqs)
-                 (if round_active r then map v_pub (r_vals r) else ctrl) ops' outs'
-  | OForward f :: ops', OutForward relays :: outs' =>
-      forward_ok ctrl f relays && spec_ok lastsig ctrl ops' outs'
-  | OPrepare p :: ops', OutPrepare err nodes :: outs' =>
-      prepare_ok p err nodes && spec_ok lastsig ctrl ops' outs'
+  | EJob e wins r :: eops', OutRound err reqs relays nodes :: outs' =>
+      let may := r_vals r in
+      let must := if r_api r then may else spec_must e may wins in
+      round_ok lastsig r must may err reqs relays nodes
+      && spec_ok (note_signings lastsig reqs) (ctrl_must_after r must may cmust) (ctrl_may_after r must may cmay) eops' outs'
+  | EOp (ORound r) :: eops', OutRound err reqs relays nodes :: outs' =>
+      let vals := r_vals r in
+      round_ok lastsig r vals vals err reqs relays nodes
+      && spec_ok (note_signings lastsig reqs) (ctrl_must_after r vals vals cmust) (ctrl_may_after r vals vals cmay) eops' outs'
+  | EOp (OForward f) :: eops', OutForward relays :: outs' =>
+      forward_ok cmust cmay f relays && spec_ok lastsig cmust cmay eops' outs'
+  | EPrep e wins p :: eops', OutPrepare err nodes :: outs' =>
+      prepare_ok p (spec_must e (p_vals p) wins) (p_vals p) err nodes && spec_ok lastsig cmust cmay eops' outs'
+  | EOp (OPrepare p) :: eops', OutPrepare err nodes :: outs' =>
+      prepare_ok p (p_vals p) (p_vals p) err nodes && spec_ok lastsig cmust cmay eops' outs'
   | _, _ => false
   end.
 
-Definition P_b (c : case) : bool := spec_ok [] [] (c_ops c) (c_outs c).
+Definition P_b (c : case) : bool := spec_ok [] [] [] (c_eops c) (c_outs c).
 
 Definition mismatches (cs : list case) : list N := failing_ids c_id agree cs.
 Definition violations (cs : list case) : list N := failing_ids c_id P_b cs.
